@@ -263,6 +263,8 @@ pub fn try_cleanup_stale_authority_files(
 
 pub fn try_cleanup_corrupt_lock_file(data_dir: impl AsRef<Path>) -> Result<bool, String> {
     let lock_path = authority_lock_path(&data_dir);
+    #[cfg(rip_verif)]
+    rip_kernel::verif::point("auth.corrupt.check");
     if !lock_path.exists() {
         return Ok(false);
     }
@@ -277,6 +279,8 @@ pub fn try_cleanup_corrupt_lock_file(data_dir: impl AsRef<Path>) -> Result<bool,
         std::process::id(),
         now_ms()
     ));
+    #[cfg(rip_verif)]
+    rip_kernel::verif::point("auth.corrupt.rename");
     match fs::rename(&lock_path, &tombstone) {
         Ok(()) => {}
         Err(err) if err.kind() == std::io::ErrorKind::NotFound => return Ok(false),
